@@ -36,3 +36,5 @@ package internal
 //@   loop 0 invariant[C20.end_once_per_handler] ncalls("HandleRPC:*google.golang.org/grpc/stats.End") == old(ncalls("HandleRPC:*google.golang.org/grpc/stats.End")) + rangeindex + 1
 //@   atcall[C20.end_error_iff_failure] (google.golang.org/grpc/stats.Handler).HandleRPC : (arg2.Error != nil) == (appErr != nil && !errIs(appErr, io.EOF)) && (arg2.Error != nil ==> arg2.Error == appErr)
 //@   ensures[C20.end_once_per_handler] ncalls("HandleRPC:*google.golang.org/grpc/stats.End") == old(ncalls("HandleRPC:*google.golang.org/grpc/stats.End")) + len(statsHandlers)
+
+//@ fielddefault[C15.discipline] internal.fnReadWriter init_only
